@@ -7,7 +7,7 @@
    * StateTreeSkeleton<u64>: Mem(t)/Feed(t) carry word_size t directly.
    * usize/u64 are modelled as unbounded N (overflow is outside the model).
    * HashSet<CopyFromPatch> is a duplicate-free list (`nodup`).
-   * The f64 scores of lcs_by_score are set cardinalities (< 2^53) so N is exact.
+   * The f64 scores of lcs_by_score are cell counts (< 2^53) so N is exact.
    * build_patches_recursive passes root skeletons + paths and recomputes
      addresses with path_to_address; here the base addresses of the current
      nodes are threaded instead (Lemmas.v relates them to path_to_address).
@@ -156,7 +156,8 @@ Fixpoint backtrack (fuel : nat) (scores dp : list (list N)) (i j : nat)
       match i, j with
       | O, O => acc
       | S i', S j' =>
-          if 0 <? score_at scores i' j'
+          if (0 <? score_at scores i' j') &&
+             (dp_at dp (S i') (S j') =? dp_at dp i' j' + score_at scores i' j')
           then backtrack fuel' scores dp i' j' (Common i' j' :: acc)
           else if dp_at dp (S i') j' <? dp_at dp i' (S j')
                then backtrack fuel' scores dp i' (S j') (Delete i' :: acc)
@@ -171,43 +172,59 @@ Definition lcs_by_score (n m : nat) (scores : list (list N)) : list diff_result 
 
 (* ---- build_patches_recursive ---- *)
 
-Definition score_of (ps : list patch) : N := N.of_nat (length ps).
+(* count_cells : number of delay/mem/feed cells of a layout *)
+Fixpoint count_cells (s : skel) : N :=
+  match s with
+  | FnCall cs => sumN (map count_cells cs)
+  | _ => 1
+  end.
 
-Definition table_at (table : list (list (list patch))) (i j : nat) : list patch :=
-  nth j (nth i table []) [].
+(* one entry of child_patches_map: (patches, carried cells) *)
+Definition entry : Type := (list patch * N)%type.
 
-Fixpoint collect (table : list (list (list patch))) (rs : list diff_result) : list patch :=
+Definition table_at (table : list (list entry)) (i j : nat) : entry :=
+  nth j (nth i table []) ([], 0).
+
+Fixpoint collect (table : list (list entry)) (rs : list diff_result) : list patch :=
   match rs with
   | [] => []
-  | Common i j :: rest => table_at table i j ++ collect table rest
+  | Common i j :: rest => fst (table_at table i j) ++ collect table rest
   | _ :: rest => collect table rest
   end.
 
-Fixpoint bp (o n : skel) (so dn : N) {struct o} : list patch :=
-  if nodes_match o n then [mkPatch so dn (size o)]
+Fixpoint collect_cells (table : list (list entry)) (rs : list diff_result) : N :=
+  match rs with
+  | [] => 0
+  | Common i j :: rest => snd (table_at table i j) + collect_cells table rest
+  | _ :: rest => collect_cells table rest
+  end.
+
+(* build_patches_recursive: (patch set, number of carried cells) *)
+Fixpoint bp (o n : skel) (so dn : N) {struct o} : entry :=
+  if nodes_match o n then ([mkPatch so dn (size o)], count_cells o)
   else
     match o, n with
     | FnCall ocs, FnCall ncs =>
         let table :=
-          (fix rows (os : list skel) (so' : N) : list (list (list patch)) :=
+          (fix rows (os : list skel) (so' : N) : list (list entry) :=
              match os with
              | [] => []
              | oc :: os' =>
-                 ((fix cols (ns : list skel) (dn' : N) : list (list patch) :=
+                 ((fix cols (ns : list skel) (dn' : N) : list entry :=
                      match ns with
                      | [] => []
                      | nc :: ns' => bp oc nc so' dn' :: cols ns' (dn' + size nc)
                      end) ncs dn)
                  :: rows os' (so' + size oc)
              end) ocs so in
-        let scores := map (map score_of) table in
+        let scores := map (map snd) table in
         let rs := lcs_by_score (length ocs) (length ncs) scores in
-        nodup patch_eq_dec (collect table rs)
-    | _, _ => []
+        (nodup patch_eq_dec (collect table rs), collect_cells table rs)
+    | _, _ => ([], 0)
     end.
 
 (* take_diff *)
-Definition take_diff (o n : skel) : list patch := bp o n 0 0.
+Definition take_diff (o n : skel) : list patch := fst (bp o n 0 0).
 
 (* build_state_storage_patch_plan: None | Some (total_size, patches) *)
 Definition plan (o n : skel) : option (N * list patch) :=
